@@ -6,4 +6,8 @@ EdgesFlat == {<<Root, o>> : o \in Obj}
 EdgesChain == EdgesFlat \cup {<<"a", "b">>} \cup (IF "c" \in Obj THEN {<<"a", "c">>, <<"b", "c">>} ELSE {})
 \* blobs hang off the root only (a blob whose data went with an aborted savepoint is never linked from a live state)
 EdgesBlob == EdgesFlat \cup {<<"a", "b">> : x \in {y \in {1} : "a" \in Obj \ Blobs /\ "b" \in Obj \ Blobs}}
+\* objects committed under the root before the behaviour starts
+PreNone == <<>>
+PreA == <<"a">>
+PreAB == <<"a", "b">>
 =============================================================================
